@@ -332,16 +332,20 @@ def r06_2(ctx):
     if dn:
         edges, reg = _verify_arm(ctx, dn)
         if reg is not None:
-            oks = [bb for bb in ok_sites(dn) if bb in reg]
-            if not oks:
-                ctx.anchor_missing("Ok return in the Verify arm of done")
             z = cmp_holds_edges(dn, ctx.lib, "eq", lambda lv: has_field(lv, "rem"), lambda lv: has_const(lv, "0_u64"))
+            # for the Verify variant an Ok return is reachable only through the rem == 0 edge (the Ok arm may be shared with other
+            # variants: `Verify {..} if *rem != 0 => Err(..), Verify {..} | Clean => Ok(())`)
+            me = modes(ctx).mode_edges(dn)
+            not_verify = {eid for eid, vs in me.items() if "Verify" not in vs}
+            oks = [bb for bb in ok_sites(dn) if not C.guarded(dn, bb, not_verify)]
+            if not oks:
+                ctx.anchor_missing("Ok return reachable for the Verify context in done")
             for bb in oks:
-                if z and C.guarded(dn, bb, z):
+                if z and C.guarded(dn, bb, not_verify | z):
                     ctx.ok("c|rem==0", site=ctx.site(dn, bb))
                 else:
                     ctx.violation(["c", "rem==0"], "verify: finishing succeeds with unread bytes left in the existing output "
-                                  "(an extended output would pass)", site=ctx.site(dn, bb), witness=C.witness(dn, bb, z))
+                                  "(an extended output would pass)", site=ctx.site(dn, bb), witness=C.witness(dn, bb, not_verify | z))
             # any delegated return (tail call result) in the Verify arm would bypass the check
             for bb, t in dn.calls():
                 if bb in reg and t["dest"]["l"] == 0 and not C.is_from_residual(t):
@@ -356,7 +360,7 @@ def r06_3(ctx):
     p_out = cn.param_index_by_name("output_path")
     for bb, st in aggregates(cn, ADT["CtxOut"], "Verify"):
         flds = st["rv"]["agg"]["fields"]
-        lv = C.trace(cn, st["rv"]["ops"][flds.index("rem")]) if "rem" in flds else []
+        lv = C.trace(cn, st["rv"]["ops"][flds.index("rem")], through_decorators=True) if "rem" in flds else []
         good = bool(lv)
         for l in lv:
             if not leaf_is_call(l, "std::fs::Metadata::len"):
